@@ -134,6 +134,10 @@ class Module(object):
             self.tree = ast.parse(self.src, filename=path)
         self.normalised = {}
         if not os.environ.get('TTSA_NO_NORMALISE'):
+            # u'...' is '...'
+            for c_ in ast.walk(self.tree):
+                if isinstance(c_, ast.Constant) and getattr(c_, 'kind', None) == 'u':
+                    c_.kind = None
             # N13 at module level: `NAME: Final = v` / `TABLE: List[str] = v` is `NAME = v` (a bare `NAME: T` says nothing)
             body = []
             for st in self.tree.body:
@@ -142,6 +146,34 @@ class Module(object):
                     if st.value is not None:
                         body.append(ast.copy_location(ast.Assign(targets=[st.target], value=st.value), st))
                     continue
+                body.append(st)
+            self.tree.body = body
+            ast.fix_missing_locations(self.tree)
+            # a table built in two steps while the module is loaded: `T = dict(A)` / `T = {...}` followed (directly) by
+            # `T.update(B)`  is  `T = dict(list(A.items()) + list(B.items()))`
+            body = []
+            for st in self.tree.body:
+                prev = body[-1] if body else None
+                if isinstance(st, ast.Expr) and isinstance(st.value, ast.Call) and isinstance(st.value.func, ast.Attribute) \
+                        and st.value.func.attr == 'update' and isinstance(st.value.func.value, ast.Name) and len(st.value.args) == 1 \
+                        and not st.value.keywords and isinstance(st.value.args[0], ast.Name) \
+                        and isinstance(prev, ast.Assign) and len(prev.targets) == 1 and isinstance(prev.targets[0], ast.Name) \
+                        and prev.targets[0].id == st.value.func.value.id:
+                    a = prev.value
+                    first = None
+                    if isinstance(a, ast.Call) and isinstance(a.func, ast.Name) and a.func.id == 'dict' and len(a.args) == 1 \
+                            and not a.keywords and isinstance(a.args[0], ast.Name):
+                        first = a.args[0]
+                    elif isinstance(a, ast.Dict):
+                        first = a
+                    if first is not None:
+                        items = lambda e: ast.Call(func=ast.Name(id='list', ctx=ast.Load()), args=[ast.Call(
+                            func=ast.Attribute(value=e, attr='items', ctx=ast.Load()), args=[], keywords=[])], keywords=[])
+                        prev.value = ast.Call(func=ast.Name(id='dict', ctx=ast.Load()),
+                                              args=[ast.BinOp(left=items(first), op=ast.Add(), right=items(st.value.args[0]))], keywords=[])
+                        ast.copy_location(prev.value, a)
+                        self.normalised['N13'] = self.normalised.get('N13', 0) + 1
+                        continue
                 body.append(st)
             self.tree.body = body
             ast.fix_missing_locations(self.tree)
